@@ -1,6 +1,7 @@
 import MJ.Proofs.OutputProg
 import MJ.Proofs.OutputEmit
 import MJ.Proofs.OutputUser
+import MJ.Proofs.OutputSites
 /-!
 # C19 — a failing output sink stops the render with the sink's own error
 
@@ -686,5 +687,307 @@ example :
     (exec (.own (.sink [.err ⟨.timedOut, 4, .custom⟩]) (.emit (.str [5])) fun _ => .skip)
       (⟨([] : Bytes), []⟩ : Out Bytes)).2 = .ok (.error (.writeFailure (some ⟨.timedOut, 4, .custom⟩))) :=
   ⟨by decide, by decide, by rfl⟩
+
+/-! ## session 3: the facts read off the source, the full statement about an engine, `C19_main` -/
+
+/-- **Every result of a write propagates** (regenerated: `C19_WRITE_SITES` = every call of
+    `write_str`/`write_char`/`write_fmt`/`write!`/`write_all` on a handle of the render output;
+    `C19_RESULT_FLOW` = every other use of such a handle — `&mut Output`, `&mut fmt::Formatter`,
+    `&mut dyn fmt::Write`, builders and wrapper structs made from one, `Output`s created in place —
+    in the crate outside the compiler: `?` / `ok!` / `ctx_ok!` / `return` / tail value / the value of a
+    closure whose caller propagates / a bound result that is only consumed): no site drops,
+    inspects or unwraps a `fmt::Result` or the `Result` of a function that was given the output. -/
+theorem every_write_result_propagates :
+    MJ.Gen.c19WriteSites.all (fun r => r.2.2 == "propagate") = true ∧
+    MJ.Gen.c19ResultFlow.all (fun r => r.2.2 == "propagate" || r.2.2 == "noresult") = true ∧
+    60 ≤ MJ.Gen.c19WriteSites.length ∧ 100 ≤ MJ.Gen.c19ResultFlow.length := by
+  decide +kernel
+
+example : ("vm/mod.rs:eval_impl#1", "write_str", "propagate") ∈ MJ.Gen.c19WriteSites ∧
+    ("vm/mod.rs:perform_include#2", "call:eval_state", "propagate") ∈ MJ.Gen.c19ResultFlow ∧
+    ("vm/mod.rs:eval_impl#2", "out.begin_capture", "noresult") ∈ MJ.Gen.c19ResultFlow := by decide +kernel
+
+/-- **Every entry point checks the adapter** (regenerated: `C19_OUTPUT_CREATIONS` = every
+    `Output::new` / `Output::null` of the crate with its base writer): an `Output` is only ever
+    created over a `String`, the null writer or a `WriteWrapper`; and wherever it is a
+    `WriteWrapper`, the result of the evaluation goes through `check` on the `Ok` arm and through
+    `take_err` on the `Err` arm (in the function that builds the adapter, or in every caller of the
+    helper that creates the `Output`).  The public functions generic over `io::Write` are among them. -/
+theorem every_entry_point_checks_wrapper :
+    (∀ r ∈ MJ.Gen.c19OutputCreations,
+      (r.2.2.1 = "String" ∨ r.2.2.1 = "Null" ∨ r.2.2.1 = "WriteWrapper") ∧ r.2.2.2.1 = 1 ∧ r.2.2.2.2 = 1) ∧
+    (∀ a ∈ MJ.Gen.c19WriterApis, ∃ r ∈ MJ.Gen.c19OutputCreations,
+      r.2.2.1 = "WriteWrapper" ∧ (r.2.1 = a.2 ∨ r.2.1.endsWith ("<-" ++ a.2) = true)) ∧
+    (∀ r ∈ MJ.Gen.c19BoundarySites, r.2.2.1 = 1 ∧ r.2.2.2.1 = 1 ∧ r.2.2.2.2.1 = 1 ∧ r.2.2.2.2.2 = 1) := by
+  decide +kernel
+
+example : (MJ.Gen.c19OutputCreations.filter (fun r => r.2.2.1 == "WriteWrapper")).length = 2 ∧
+    (MJ.Gen.c19OutputCreations.filter (fun r => r.2.2.1 == "String")).length ≥ 5 := by decide +kernel
+
+/-- **The source has every fact the model needs**: both methods of the adapter are sticky and store
+    the error, both entry points check and take, every write site propagates. -/
+theorem code_facts_hold :
+    codeFacts.adapter = AdapterFacts.ok ∧ (∀ a, codeFacts.api a = ApiFacts.ok) ∧
+    (∀ i, i < MJ.Gen.c19WriteSites.length → codeFacts.site i = true) := by
+  refine ⟨by decide +kernel, fun a => by cases a <;> decide +kernel, ?_⟩
+  intro i hi
+  have hall : ∀ r ∈ MJ.Gen.c19WriteSites, (r.2.2 == "propagate") = true := by
+    have := every_write_result_propagates.1
+    simpa [List.all_eq_true] using this
+  simp only [codeFacts, List.getElem?_eq_getElem hi]
+  exact hall _ (List.getElem_mem hi)
+
+example : codeFacts.site 0 = true ∧ codeFacts.site 100000 = false := by decide +kernel
+
+/-- the engine, as far as C19 can see it: for every program (templates, context, environment,
+    which API) the plain render and the render into a sink that behaves as `script` says -/
+structure Engine (P : Type) where
+  plain : P → StrOutcome
+  toSink : P → List Beh → Outcome
+
+/-- **C19, full strength, about an engine**: for ALL programs and EVERY behaviour of the sink
+    (failure at the k-th `write` call for every k, any error kind incl. `Interrupted`/`WouldBlock`,
+    short writes, zero-length writes, any way the error is built):
+    (1) the bytes the sink accepted are a prefix of the string the plain render builds;
+    (2) a call at which the sink failed is the last call it ever receives;
+    (3) if the sink failed with `e` the call returns `WriteFailure` whose source is `e` (unless
+        user code panicked later) — not `Ok`, not another kind, not another source;
+    (4) if the sink never failed, result and bytes are the plain render's. -/
+def C19_statement {P : Type} (E : Engine P) : Prop :=
+  ∀ (p : P) (script : List Beh),
+    delivered (E.toSink p script).calls <+: (E.plain p).buf ∧
+    (∀ (i : Nat) (h : i < (E.toSink p script).calls.length),
+        ((E.toSink p script).calls[i]).failure ≠ none → i + 1 = (E.toSink p script).calls.length) ∧
+    (∀ c ∈ (E.toSink p script).calls, ∀ e, c.failure = some e →
+        (E.toSink p script).result = .ok (.error (.writeFailure (some e))) ∨
+        (E.toSink p script).result = .panic) ∧
+    ((∀ c ∈ (E.toSink p script).calls, c.failure = none) →
+        (E.toSink p script).result = (E.plain p).result ∧
+        delivered (E.toSink p script).calls = (E.plain p).buf)
+
+/-- **H_ops — the one hypothesis that is validated, not proved** (hook log of every run: same
+    operations for `String` and `io::Write` base writers; the log of every failing run is the clean
+    log cut at the failing write; the model run on the logged operations reproduces calls, bytes,
+    digest, result): every program performs a sequence of output operations and calls of user
+    code that does not depend on the writer, each operation issued by one of the write sites of
+    the table, through one of the two functions that build a `WriteWrapper` — i.e. the engine is
+    the model instantiated with the facts `F` of the source. -/
+def EngineIsModel {P : Type} (F : CodeFacts) (nSites : Nat) (E : Engine P) : Prop :=
+  ∃ (opsOf : P → List SXOp) (apiOf : P → Api),
+    (∀ p i o, SXOp.op i o ∈ opsOf p → i < nSites) ∧
+    ∀ p script, E.toSink p script = renderToF F (apiOf p) (opsOf p) script ∧
+      E.plain p = renderStringF F (opsOf p)
+
+/-- **C19, main theorem.**  The named hypotheses are: the adapter's guard and store (`hAdapter`),
+    `check` / `take_err` at every entry point (`hApi`) — both discharged from the regenerated
+    tables by `code_facts_hold` in `C19_main` below — and `H_ops` (validated only).  The write
+    sites need NOT propagate for the four sink-level claims: a site that dropped a `fmt::Error`
+    is covered by the sticky adapter and the check at the boundary (it matters for "rendering
+    stops": `render_stops_at_failing_write`, `swallowing_site_goes_on`). -/
+theorem C19_from_facts {P : Type} (F : CodeFacts) (n : Nat) (E : Engine P)
+    (hAdapter : F.adapter = AdapterFacts.ok) (hApi : ∀ a, F.api a = ApiFacts.ok)
+    (H_ops : EngineIsModel F n E) : C19_statement E := by
+  obtain ⟨opsOf, apiOf, _, h⟩ := H_ops
+  intro p script
+  rw [(h p script).1, (h p script).2, renderToF_eq F _ _ _ hAdapter (hApi _), renderStringF_eq]
+  exact C19_with_user_strategies _ script
+
+theorem C19_main {P : Type} (E : Engine P)
+    (H_ops : EngineIsModel codeFacts MJ.Gen.c19WriteSites.length E) : C19_statement E :=
+  C19_from_facts codeFacts _ E code_facts_hold.1 code_facts_hold.2.1 H_ops
+
+/-- the hypothesis is satisfiable by a non-trivial engine: the model itself over all operation
+    sequences with sites of the table, both APIs -/
+example : ∃ E : Engine (Api × List SXOp), EngineIsModel codeFacts 3 E ∧
+    (match (E.toSink (.blockToWrite, [.op 0 (.write (.str [1])), .op 2 (.write (.chr [2]))]) [.all, .err ⟨.other, 7, .custom⟩]).result with
+      | .ok (.error (.writeFailure (some e))) => e.id == 7
+      | _ => false) = true := by
+  refine ⟨⟨fun p => renderStringF codeFacts (p.2.filter fun x => match x with | .op i _ => i < 3 | _ => true),
+           fun p s => renderToF codeFacts p.1 (p.2.filter fun x => match x with | .op i _ => i < 3 | _ => true) s⟩,
+          ⟨fun p => p.2.filter fun x => match x with | .op i _ => i < 3 | _ => true, fun p => p.1, ?_, fun _ _ => ⟨rfl, rfl⟩⟩, ?_⟩
+  · intro p i o hm
+    have := (List.mem_filter.1 hm).2
+    simpa using this
+  · decide +kernel
+
+/-- With every site propagating (the table), the engine's loop IS `run`: it stops at the first
+    `fmt::Error`. -/
+theorem engine_loop_is_run {B : Type} [FmtWrite B] (ops : List (Nat × Op)) (st : St B)
+    (h : ∀ x ∈ ops, x.1 < MJ.Gen.c19WriteSites.length) :
+    runSX codeFacts.site (ops.map fun x => .op x.1 x.2) st = run (ops.map (·.2)) st := by
+  rw [runSX_eq, toXWith_propagate]
+  · induction ops generalizing st with
+    | nil => rfl
+    | cons x xs ih =>
+      simp only [List.map_cons, List.map_map, runX, run, SXOp.toX, stepX] at ih ⊢
+      rcases step x.2 st with ⟨st', halt⟩
+      cases halt with
+      | none => exact ih st' (fun y hy => h y (List.mem_cons_of_mem _ hy))
+      | some y => cases y <;> rfl
+  · intro i o hm
+    obtain ⟨x, hx, he⟩ := List.mem_map.1 hm
+    cases he
+    exact code_facts_hold.2.2 _ (h x hx)
+
+example : runSX codeFacts.site [.op 0 (.write (.str [1])), .op 1 (.write (.str [2]))] (St.init ([] : Bytes))
+    = run [.write (.str [1]), .write (.str [2])] (St.init ([] : Bytes)) :=
+  engine_loop_is_run [(0, .write (.str [1])), (1, .write (.str [2]))] _ (by decide +kernel)
+
+/-- **Both entry points are `renderTo`.**  With the facts of the source (`codeFacts`), the render
+    through either function that builds a `WriteWrapper`, of operations issued by sites of the
+    table, is the `renderTo` of `Output.lean` — so every theorem about `renderTo` (`C19_holds`,
+    short writes and `Interrupted` absorbed, `WouldBlock` and every other kind reported with the
+    sink's own error, nothing after the failure) holds for `Template::render_captured_to` and for
+    `State::render_block_to_write` alike. -/
+theorem both_entry_points_are_renderTo (api : Api) (ops : List (Nat × Op))
+    (h : ∀ x ∈ ops, x.1 < MJ.Gen.c19WriteSites.length) (script : List Beh) :
+    renderToF codeFacts api (ops.map fun x => .op x.1 x.2) script = renderTo (ops.map (·.2)) script := by
+  unfold renderToF renderTo
+  rw [code_facts_hold.1, code_facts_hold.2.1 api, fmtWriteF_ok]
+  simp only [engine_loop_is_run ops _ h, finishF_ok]
+
+example : ∀ api : Api,
+    delivered (renderToF codeFacts api [.op 0 (.write (.str [1, 2, 3])), .op 5 (.write (.chr [4]))]
+      [.accept 1, .err ⟨.interrupted, 1, .msg⟩, .half, .err ⟨.wouldBlock, 9, .os 11⟩]).calls = [1, 2] := by
+  intro api; cases api <;> decide +kernel
+
+/-- **Rendering stops at the failing write.**  If the sink failed during `renderTo ops script`,
+    the operations split into `pre ++ write c :: post`: `pre` ran through, the write of `c` went
+    to the base writer (no capture open) and is the one that failed, and the evaluation ended
+    there with the `fmt::Error` turned into an error (which the boundary then replaces): the final
+    state is the state right after that write — nothing of `post` was executed. -/
+theorem render_stops_at_failing_write (ops : List Op) (script : List Beh) (c0 : Call)
+    (hc : c0 ∈ (renderTo ops script).calls) (e : IoErr) (hf : c0.failure = some e) :
+    ∃ pre c post, ops = pre ++ .write c :: post ∧
+      (run pre (St.init (⟨script, [], none⟩ : WriteWrapper))).2 = .ok (.ok ()) ∧
+      (run pre (St.init (⟨script, [], none⟩ : WriteWrapper))).1.out.stack = [] ∧
+      run ops (St.init (⟨script, [], none⟩ : WriteWrapper)) =
+        ((step (.write c) (run pre (St.init (⟨script, [], none⟩ : WriteWrapper))).1).1,
+         .ok (.error (wrapAll (run pre (St.init (⟨script, [], none⟩ : WriteWrapper))).1.wraps Err.fromFmt))) := by
+  have herr : ∃ e', (run ops (St.init (⟨script, [], none⟩ : WriteWrapper))).1.out.w.err = some e' := by
+    obtain ⟨_, _, hr⟩ := render_spec ops script
+    rcases hr with ⟨hok, _, _⟩ | ⟨_, e', herr, _⟩
+    · exfalso
+      rcases (render_facts ops script).2 with ⟨hcl, _, _⟩ | ⟨e'', hfw, hres⟩
+      · rw [hcl c0 hc] at hf; cases hf
+      · obtain ⟨new, f1, _, f3, _⟩ := feed_spec (chunksOf ops) (⟨script, [], none⟩ : WriteWrapper) rfl
+        obtain ⟨_, hcalls, _⟩ := render_spec ops script
+        simp only [List.nil_append] at f1
+        rw [hcalls, f1] at hfw
+        exact failsWith_not_clean hfw (f3 hok).2.1
+    · obtain ⟨cs, hcc, hw, _⟩ :=
+        run_sim ops (St.init (⟨script, [], none⟩ : WriteWrapper)) (St.init ([] : List Chunk)) rfl rfl
+      have hcs : cs = chunksOf ops := by simpa [chunksOf, St.init] using hcc.symm
+      subst hcs
+      exact ⟨e', by rw [hw]; exact herr⟩
+  obtain ⟨e', he'⟩ := herr
+  obtain ⟨pre, c, post, h1, h2, _, h4, h5⟩ := run_stops ops (St.init (⟨script, [], none⟩ : WriteWrapper)) rfl e' he'
+  exact ⟨pre, c, post, h1, h2, h4, h5⟩
+
+example : (run [.write (.str [1]), .write (.str [2]), .beginCapture false, .write (.str [3])]
+      (St.init (⟨[.all, .err ⟨.brokenPipe, 1, .msg⟩], [], none⟩ : WriteWrapper))).1.out.stack = [] := by decide
+
+/-! ### every switch is needed: with one fact of the source gone, a render violates C19 -/
+
+def factsWith (a : AdapterFacts) (ok take : Bool) (site : Nat → Bool) : CodeFacts :=
+  ⟨a, fun _ => ⟨ok, take⟩, site⟩
+
+/-- user code that goes on writing after a failed write and reports success -/
+def carelessUser : UserCode := .write (.str [120]) fun _ => .write (.chr [121]) fun _ => .ret true
+
+/-- **Each fact is needed.**  (1) without the guard in `write_str` / (2) in `write_char`, careless
+    user code gets a call through to the sink after it failed; (3) without the store the source
+    is lost; (4) without `check` on the `Ok` arm (seeded C19-7) a failure that user code swallowed
+    at the last write is reported as success; (5) without `take_err` on the `Err` arm the caller
+    gets "formatting failed" without the sink's error; (6) a site that drops the `fmt::Error`
+    makes the engine go on after the failure (more operations executed), although sink and result
+    are still right thanks to guard and check. -/
+theorem each_code_fact_is_needed :
+    -- (1)
+    (renderToF (factsWith ⟨false, true, true, true⟩ true true fun _ => true) .capturedTo
+        [.op 0 (.write (.str [97])), .user (.write (.str [120]) fun _ => .write (.str [121]) fun _ => .ret true)]
+        [.all, .err ⟨.wouldBlock, 3, .msg⟩]).calls.length = 3 ∧
+    -- (2)
+    (renderToF (factsWith ⟨true, false, true, true⟩ true true fun _ => true) .capturedTo
+        [.op 0 (.write (.str [97])), .user carelessUser] [.all, .err ⟨.wouldBlock, 3, .msg⟩]).calls.length = 3 ∧
+    -- (3)
+    (renderToF (factsWith ⟨true, true, true, false⟩ true true fun _ => true) .blockToWrite
+        [.op 0 (.write (.chr [97]))] [.err ⟨.brokenPipe, 3, .msg⟩]).result = .ok (.error (.writeFailure none)) ∧
+    -- (4)
+    (renderToF (factsWith AdapterFacts.ok false true fun _ => true) .blockToWrite
+        [.op 0 (.write (.str [97])), .user carelessUser] [.all, .err ⟨.brokenPipe, 3, .msg⟩]).result = .ok (.ok ()) ∧
+    -- (5)
+    (renderToF (factsWith AdapterFacts.ok true false fun _ => true) .capturedTo
+        [.op 0 (.write (.str [97]))] [.err ⟨.brokenPipe, 3, .msg⟩]).result = .ok (.error (.writeFailure none)) ∧
+    -- (6)
+    (execCountF (factsWith AdapterFacts.ok true true fun _ => false) [.op 0 (.write (.str [97])), .op 1 (.beginCapture false), .op 1 .endCapture]
+        [.err ⟨.brokenPipe, 3, .msg⟩] = 3 ∧
+     execCountF (factsWith AdapterFacts.ok true true fun _ => true) [.op 0 (.write (.str [97])), .op 1 (.beginCapture false), .op 1 .endCapture]
+        [.err ⟨.brokenPipe, 3, .msg⟩] = 1 ∧
+     (renderToF (factsWith AdapterFacts.ok true true fun _ => false) .capturedTo [.op 0 (.write (.str [97])), .op 1 (.beginCapture false), .op 1 .endCapture]
+        [.err ⟨.brokenPipe, 3, .msg⟩]).result = .ok (.error (.writeFailure (some ⟨.brokenPipe, 3, .msg⟩)))) := by
+  refine ⟨by decide +kernel, by decide +kernel, by rfl, by rfl, by rfl, by decide +kernel, by decide +kernel, by rfl⟩
+
+/-- **The sink-level claims hold for ANY classification of the write sites** (with the adapter and
+    the boundary as they are): sites that drop a `fmt::Error` behave like user code that does. -/
+theorem sink_claims_for_any_site_classification (site : Nat → Bool) (api : Api) (xs : List SXOp) (script : List Beh) :
+    let F : CodeFacts := ⟨AdapterFacts.ok, fun _ => ApiFacts.ok, site⟩
+    delivered (renderToF F api xs script).calls <+: (renderStringF F xs).buf ∧
+    (∀ (i : Nat) (h : i < (renderToF F api xs script).calls.length),
+        ((renderToF F api xs script).calls[i]).failure ≠ none → i + 1 = (renderToF F api xs script).calls.length) ∧
+    (∀ c ∈ (renderToF F api xs script).calls, ∀ e, c.failure = some e →
+        (renderToF F api xs script).result = .ok (.error (.writeFailure (some e))) ∨
+        (renderToF F api xs script).result = .panic) := by
+  intro F
+  rw [renderToF_eq F api xs script rfl rfl, renderStringF_eq]
+  obtain ⟨a, b, c, _⟩ := C19_with_user_strategies (xs.map (SXOp.toXWith site)) script
+  exact ⟨a, b, c⟩
+
+/-- a site that swallows, careless user code, a sink that fails once: one failed call, nothing after it -/
+example :
+    let F : CodeFacts := ⟨AdapterFacts.ok, fun _ => ApiFacts.ok, fun i => i != 1⟩
+    let r := renderToF F .blockToWrite [.op 0 (.write (.str [1])), .op 1 (.write (.str [2])), .user carelessUser, .op 2 (.write (.str [3]))]
+      [.all, .err ⟨.timedOut, 4, .custom⟩]
+    r.calls.length = 2 ∧ delivered r.calls = [1] := by decide +kernel
+
+/-! ### user code that forwards the failure of its writer -/
+
+/-- **Well-behaved user code is part of the operation sequence.**  If every piece of user
+    formatting code (custom formatter, `Object::render`, `Display`) *forwards* — after a failed write
+    it writes nothing more and returns `Err(fmt::Error)`, the `?` after every write — then the render
+    is the flat render of `flattenX xops`, an operation sequence computed without looking at the
+    writer: every theorem about `renderTo` applies (no "or the user code panicked" escape), and the
+    evaluation stops at the failing write (`render_stops_at_failing_write`). -/
+theorem forwarding_user_code_is_engine_ops (xops : List XOp) (h : ∀ u, XOp.user u ∈ xops → u.forwards)
+    (script : List Beh) :
+    renderToX xops script = renderTo (flattenX xops) script ∧
+    renderStringX xops = renderString (flattenX xops) := by
+  constructor
+  · simp only [renderToX, renderTo, runX_flattenX xops h]
+  · simp only [renderStringX, renderString, runX_flattenX xops h]
+
+/-- the harness's `Obj::render`: `f.write_str("<obj ")?; write!(f, "{}", 42)?; f.write_char('&')?; …` -/
+example :
+    let obj : UserCode := .write (.str [60]) fun ok => if ok then .write (.str [52, 50]) fun ok =>
+      if ok then .write (.chr [38]) fun ok => .ret ok else .ret false else .ret false
+    obj.forwards ∧ obj.okOps = [.write (.str [60]), .write (.str [52, 50]), .write (.chr [38])] := by
+  refine ⟨⟨rfl, rfl, ?_⟩, rfl⟩
+  exact ⟨rfl, trivial⟩
+
+/-- **C19 with forwarding user code**, all parts at full strength. -/
+theorem C19_with_forwarding_user_code (xops : List XOp) (h : ∀ u, XOp.user u ∈ xops → u.forwards)
+    (script : List Beh) :
+    delivered (renderToX xops script).calls <+: (renderStringX xops).buf ∧
+    (∀ (i : Nat) (hi : i < (renderToX xops script).calls.length),
+        ((renderToX xops script).calls[i]).failure ≠ none → i + 1 = (renderToX xops script).calls.length) ∧
+    (∀ c ∈ (renderToX xops script).calls, ∀ e, c.failure = some e →
+        (renderToX xops script).result = .ok (.error (.writeFailure (some e)))) ∧
+    ((∀ c ∈ (renderToX xops script).calls, c.failure = none) →
+        (renderToX xops script).result = (renderStringX xops).result ∧
+        delivered (renderToX xops script).calls = (renderStringX xops).buf) := by
+  obtain ⟨h1, h2⟩ := forwarding_user_code_is_engine_ops xops h script
+  rw [h1, h2]
+  obtain ⟨a, b, c, d, _, _⟩ := C19_holds (flattenX xops) script
+  exact ⟨a, b, c, d⟩
 
 end MJ.C19
